@@ -79,3 +79,388 @@ Proof.
   intros Hnc H. subst nbytes. replace (nc * ns * 2) with (ns * (2 * nc)) by ring.
   now rewrite Z.div_mul by lia.
 Qed.
+
+(* ------------------------------------------------------------------ *)
+(* binary64 level (Flocq)                                              *)
+(* ------------------------------------------------------------------ *)
+From Flocq Require Import Relative.
+Local Open Scope R_scope.
+
+Definition fexp64 : Z -> Z := FLT_exp (-1074) 53.
+Definition rnd64 (x : R) : R := round radix2 fexp64 ZnearestE x.
+Definition u64 : R := / 9007199254740992.      (* 2^-53 *)
+
+Lemma fexp_eq : SpecFloat.fexp prec emax = fexp64.
+Proof. reflexivity. Qed.
+
+#[local] Instance valid_fexp64 : Valid_exp fexp64 := FLT_exp_valid (-1074) 53.
+#[local] Instance valid_NE : Valid_rnd ZnearestE := valid_rnd_N _.
+
+Lemma gen_IZR z : (Z.abs z < 2 ^ 53)%Z -> generic_format radix2 fexp64 (IZR z).
+Proof.
+  intros H. apply generic_format_FLT. apply FLT_spec with (Float radix2 z 0).
+  - unfold F2R. simpl. ring.
+  - exact H.
+  - simpl. lia.
+Qed.
+
+Lemma gen_half z : (Z.abs z < 2 ^ 53)%Z -> generic_format radix2 fexp64 (IZR z / 2).
+Proof.
+  intros H. apply generic_format_FLT. apply FLT_spec with (Float radix2 z (-1)).
+  - unfold F2R, Fnum, Fexp. change (bpow radix2 (-1)) with (/ 2). reflexivity.
+  - exact H.
+  - simpl. lia.
+Qed.
+
+Lemma bpow_emax_big z : (Z.abs z <= 2 ^ 200)%Z -> Rabs (IZR z) < bpow radix2 emax.
+Proof.
+  intros H. rewrite <- abs_IZR.
+  apply Rle_lt_trans with (IZR (2 ^ 200)).
+  - apply IZR_le. exact H.
+  - change 2%Z with (radix_val radix2). rewrite IZR_Zpower by lia. apply bpow_lt. reflexivity.
+Qed.
+
+Lemma of_Z_correct z : (Z.abs z < 2 ^ 53)%Z -> B2R (of_Z z) = IZR z /\ is_finite (of_Z z) = true.
+Proof.
+  intros H. unfold of_Z, of_me.
+  pose proof (binary_normalize_correct prec emax Hprec Hemax mode_NE z 0 false) as C.
+  cbv zeta in C.
+  replace (F2R {| Fnum := z; Fexp := 0 |}) with (IZR z) in C by (unfold F2R; simpl; ring).
+  rewrite fexp_eq in C. change (round_mode mode_NE) with ZnearestE in C.
+  rewrite (round_generic radix2 fexp64 ZnearestE (IZR z) (gen_IZR z H)) in C.
+  rewrite Rlt_bool_true in C.
+  - destruct C as [C1 [C2 _]]. split; assumption.
+  - apply bpow_emax_big. lia.
+Qed.
+
+Lemma pos_finite (x : b64) : 0 < B2R x -> is_finite x = true.
+Proof. destruct x; simpl; intros H; try reflexivity; lra. Qed.
+
+(* relative error of one rounding, for |x| in the normal range *)
+Lemma rnd64_rel x : bpow radix2 (-1022) <= Rabs x ->
+  exists e, Rabs e <= u64 /\ rnd64 x = x * (1 + e).
+Proof.
+  intros H.
+  destruct (relative_error_N_FLT_ex radix2 (-1074) 53 ltac:(lia) (fun n => negb (Z.even n)) x H)
+    as [e [He Hr]].
+  exists e. split; [|exact Hr].
+  replace u64 with (/ 2 * bpow radix2 (- (53) + 1)); [exact He|].
+  change (bpow radix2 (- (53) + 1)) with (/ 4503599627370496). unfold u64. lra.
+Qed.
+
+Lemma small_bpow : bpow radix2 (-1022) <= / 36893488147419103232.   (* 2^-65 *)
+Proof.
+  change (/ 36893488147419103232) with (bpow radix2 (-65)). apply bpow_le. lia.
+Qed.
+
+(* the arithmetic heart: two relative errors of 2^-53 move k < 2^50 by less than 1/2 *)
+Lemma two_errors k e1 e2 : 0 <= k <= 1125899906842624 -> Rabs e1 <= u64 -> Rabs e2 <= u64 ->
+  Rabs (k * (1 + e1) * (1 + e2) - k) < / 2.
+Proof.
+  unfold u64. intros Hk H1 H2.
+  apply Rabs_le_inv in H1. apply Rabs_le_inv in H2.
+  set (d := e1 + e2 + e1 * e2).
+  assert (Hd : - (3 * / 9007199254740992) <= d <= 3 * / 9007199254740992) by (unfold d; nra).
+  replace (k * (1 + e1) * (1 + e2) - k) with (k * d) by (unfold d; ring).
+  apply Rabs_def1; nra.
+Qed.
+
+Lemma rnd64_bounded x : Rabs x <= bpow radix2 200 -> Rabs (rnd64 x) < bpow radix2 emax.
+Proof.
+  intros H. apply Rle_lt_trans with (bpow radix2 200).
+  - unfold rnd64. apply abs_round_le_generic; [typeclasses eauto|typeclasses eauto| |exact H].
+    apply generic_format_bpow. unfold fexp64, FLT_exp. lia.
+  - apply bpow_lt. reflexivity.
+Qed.
+
+Lemma fdiv_correct x y : B2R y <> 0 -> Rabs (rnd64 (B2R x / B2R y)) < bpow radix2 emax ->
+  B2R (fdiv x y) = rnd64 (B2R x / B2R y) /\ is_finite (fdiv x y) = is_finite x.
+Proof.
+  intros Hy Hb. unfold fdiv.
+  pose proof (Bdiv_correct prec emax Hprec Hemax mode_NE x y Hy) as C.
+  rewrite fexp_eq in C. change (round_mode mode_NE) with ZnearestE in C.
+  fold (rnd64 (B2R x / B2R y)) in C. rewrite (Rlt_bool_true _ _ Hb) in C.
+  destruct C as [C1 [C2 _]]. split; assumption.
+Qed.
+
+Lemma fmul_correct x y : Rabs (rnd64 (B2R x * B2R y)) < bpow radix2 emax ->
+  B2R (fmul x y) = rnd64 (B2R x * B2R y) /\ is_finite (fmul x y) = (is_finite x && is_finite y)%bool.
+Proof.
+  intros Hb. unfold fmul.
+  pose proof (Bmult_correct prec emax Hprec Hemax mode_NE x y) as C.
+  rewrite fexp_eq in C. change (round_mode mode_NE) with ZnearestE in C.
+  fold (rnd64 (B2R x * B2R y)) in C. rewrite (Rlt_bool_true _ _ Hb) in C.
+  destruct C as [C1 [C2 _]]. split; assumption.
+Qed.
+
+(* int(np.round(p)) = k as soon as the float p is within 1/2 of the integer k *)
+Lemma int_round_near (p : b64) k :
+  is_finite p = true -> Rabs (B2R p - IZR k) < / 2 -> int_round p = Some k.
+Proof.
+  intros Hfin Hnear. unfold int_round, py_int.
+  destruct (Bnearbyint_correct prec emax Hemax mode_NE p) as [N1 [N2 _]].
+  rewrite N2, Hfin. f_equal. apply eq_IZR.
+  rewrite (Btrunc_correct prec emax Hemax). rewrite N1.
+  change (round_mode mode_NE) with ZnearestE. rewrite !round_FIX_IZR.
+  rewrite (Znearest_imp _ _ k Hnear). now rewrite Ztrunc_IZR.
+Qed.
+
+(* sampling rates covered by the float theorems: 2^-64 <= fs <= 2^64 *)
+Definition fs_ok (fs : b64) : Prop :=
+  / 18446744073709551616 <= B2R fs <= 18446744073709551616.
+
+(* rint(fl(fl(k / fs) * fs)) = k : the rewritten fileTimeSecs reads back as k samples *)
+Lemma round_trip k fs : (0 <= k <= 2 ^ 50)%Z -> fs_ok fs ->
+  is_finite (fdiv (of_Z k) fs) = true /\
+  B2R (fdiv (of_Z k) fs) = rnd64 (IZR k / B2R fs) /\
+  int_round (fmul (fdiv (of_Z k) fs) fs) = Some k.
+Proof.
+  intros Hk [Hlo Hhi].
+  assert (HF : 0 < B2R fs) by lra.
+  pose proof (pos_finite fs HF) as Hfsfin.
+  destruct (of_Z_correct k) as [HkR Hkf]; [lia|].
+  assert (HkI : 0 <= IZR k <= 1125899906842624).
+  { split; [apply (IZR_le 0 k)|apply (IZR_le k (2 ^ 50))]; lia. }
+  set (F := B2R fs) in *.
+  set (Fi := / F).
+  assert (HFFi : F * Fi = 1) by (unfold Fi; field; lra).
+  assert (HFi : / 18446744073709551616 <= Fi <= 18446744073709551616).
+  { unfold Fi. split.
+    - apply Rinv_le_contravar; lra.
+    - replace 18446744073709551616 with (/ / 18446744073709551616) by (field).
+      apply Rinv_le_contravar; lra. }
+  set (x := IZR k / F).
+  assert (Hxe : x = IZR k * Fi) by reflexivity.
+  assert (Hx200 : Rabs x <= bpow radix2 200).
+  { apply Rle_trans with (bpow radix2 114); [|apply bpow_le; lia].
+    change (bpow radix2 114) with 20769187434139310514121985316880384.
+    rewrite Rabs_pos_eq; rewrite Hxe; nra. }
+  destruct (fdiv_correct (of_Z k) fs ltac:(fold F; lra)) as [Q1 Q2].
+  { rewrite HkR. fold F. fold x. apply rnd64_bounded, Hx200. }
+  rewrite HkR in Q1. fold F in Q1. fold x in Q1. rewrite Hkf in Q2.
+  split; [exact Q2|]. split; [exact Q1|].
+  set (q := fdiv (of_Z k) fs) in *.
+  (* the product *)
+  assert (Hp : exists e1 e2, Rabs e1 <= u64 /\ Rabs e2 <= u64 /\
+                 rnd64 (B2R q * F) = IZR k * (1 + e1) * (1 + e2)).
+  { destruct (Z.eq_dec k 0) as [->|Hk0].
+    - exists 0, 0. unfold u64. rewrite Rabs_R0.
+      split; [lra|]. split; [lra|].
+      rewrite Q1. unfold x. replace (0 / F) with 0 by (unfold Rdiv; ring).
+      unfold rnd64. rewrite round_0 by typeclasses eauto. rewrite Rmult_0_l.
+      rewrite round_0 by typeclasses eauto. ring.
+    - assert (Hk1 : 1 <= IZR k) by (apply (IZR_le 1 k); lia).
+      pose proof small_bpow as Hsm.
+      destruct (rnd64_rel x) as [e1 [He1 Hr1]].
+      { rewrite Rabs_pos_eq; rewrite Hxe; nra. }
+      assert (He1' := Rabs_le_inv _ _ He1). unfold u64 in He1'.
+      assert (Hy : B2R q * F = IZR k * (1 + e1)).
+      { rewrite Q1, Hr1, Hxe. replace (IZR k * Fi * (1 + e1) * F) with (IZR k * (1 + e1) * (F * Fi)) by ring.
+        rewrite HFFi. ring. }
+      destruct (rnd64_rel (B2R q * F)) as [e2 [He2 Hr2]].
+      { rewrite Hy. rewrite Rabs_pos_eq; nra. }
+      exists e1, e2. split; [exact He1|]. split; [exact He2|]. rewrite Hr2, Hy. ring. }
+  destruct Hp as [e1 [e2 [He1 [He2 HP]]]].
+  pose proof (two_errors (IZR k) e1 e2 HkI He1 He2) as Hnear.
+  destruct (fmul_correct q fs) as [P1 P2].
+  { fold F. rewrite HP. apply Rlt_trans with (IZR k + / 2).
+    - apply Rabs_def2 in Hnear. apply Rabs_def1; lra.
+    - apply Rle_lt_trans with (bpow radix2 60); [|apply bpow_lt; reflexivity].
+      change (bpow radix2 60) with 1152921504606846976. lra. }
+  apply int_round_near.
+  - rewrite P2, Q2, Hfsfin. reflexivity.
+  - rewrite P1. fold F. rewrite HP. exact Hnear.
+Qed.
+
+(* OnlineReader.ns: int(st_size / 2 / nc) is the floor for st_size, nc < 2^53 *)
+Lemma ns_online_floor n nc : (0 <= n < 2 ^ 53)%Z -> (1 <= nc < 2 ^ 53)%Z ->
+  ns_online n nc = NsOk (n / (2 * nc)).
+Proof.
+  intros Hn Hnc. unfold ns_online.
+  destruct (of_Z_correct n) as [HnR Hnf]; [lia|].
+  destruct (of_Z_correct 2) as [H2R H2f]; [reflexivity|].
+  destruct (of_Z_correct nc) as [HcR Hcf]; [lia|].
+  set (m := (n / (2 * nc))%Z).
+  assert (Hm : (m * (2 * nc) <= n /\ n + 1 <= (m + 1) * (2 * nc) /\ 0 <= m < 2 ^ 53)%Z).
+  { unfold m. pose proof (Z.div_mod n (2 * nc) ltac:(lia)).
+    pose proof (Z.mod_pos_bound n (2 * nc) ltac:(lia)).
+    assert (0 <= n / (2 * nc))%Z by (apply Z.div_pos; lia).
+    assert (n / (2 * nc) <= n)%Z by (apply Z.div_le_upper_bound; nia).
+    nia. }
+  destruct Hm as [Hm1 [Hm2 Hm3]].
+  set (N := IZR n). set (C := IZR nc). set (M := IZR m).
+  assert (HN : 0 <= N < 9007199254740992).
+  { unfold N. split; [apply (IZR_le 0 n)|apply (IZR_lt n (2 ^ 53))]; lia. }
+  assert (HC : 1 <= C < 9007199254740992).
+  { unfold C. split; [apply (IZR_le 1 nc)|apply (IZR_lt nc (2 ^ 53))]; lia. }
+  assert (HM : 0 <= M < 9007199254740992).
+  { unfold M. split; [apply (IZR_le 0 m)|apply (IZR_lt m (2 ^ 53))]; lia. }
+  assert (HMN1 : M * (2 * C) <= N).
+  { unfold M, C, N. rewrite <- (mult_IZR 2 nc), <- mult_IZR. apply IZR_le. exact Hm1. }
+  assert (HMN2 : N + 1 <= (M + 1) * (2 * C)).
+  { unfold M, C, N. rewrite <- (mult_IZR 2 nc), <- (plus_IZR m 1), <- mult_IZR, <- (plus_IZR n 1).
+    apply IZR_le. exact Hm2. }
+  (* first division: exact *)
+  destruct (fdiv_correct (of_Z n) (of_Z 2)) as [A1 A2].
+  { rewrite H2R. lra. }
+  { rewrite HnR, H2R. unfold rnd64. rewrite round_generic by (try typeclasses eauto; apply gen_half; lia).
+    apply Rle_lt_trans with (bpow radix2 60); [|apply bpow_lt; reflexivity].
+    change (bpow radix2 60) with 1152921504606846976. fold N. rewrite Rabs_pos_eq; lra. }
+  rewrite HnR, H2R in A1. unfold rnd64 in A1.
+  rewrite round_generic in A1 by (try typeclasses eauto; apply gen_half; lia).
+  fold N in A1. rewrite Hnf in A2.
+  set (a := fdiv (of_Z n) (of_Z 2)) in *.
+  (* second division *)
+  set (Ci := / C).
+  assert (HCCi : C * Ci = 1) by (unfold Ci; field; lra).
+  assert (HCi : / 9007199254740992 <= Ci <= 1).
+  { unfold Ci. split.
+    - apply Rinv_le_contravar; lra.
+    - replace 1 with (/ 1) by field. apply Rinv_le_contravar; lra. }
+  set (x := N / 2 / C).
+  assert (Hxe : x = N * / 2 * Ci) by reflexivity.
+  assert (Hx2C : x * (2 * C) = N).
+  { rewrite Hxe. replace (N * / 2 * Ci * (2 * C)) with (N * (C * Ci)) by field. rewrite HCCi. ring. }
+  assert (HMx : M <= x).
+  { apply Rmult_le_reg_r with (2 * C); [lra|]. rewrite Hx2C. exact HMN1. }
+  assert (Hlow : M <= rnd64 x).
+  { unfold rnd64. apply round_ge_generic; try typeclasses eauto; [|exact HMx].
+    apply gen_IZR. lia. }
+  assert (Hup : rnd64 x < M + 1).
+  { destruct (Req_dec N 0) as [HN0|HN0].
+    - assert (x = 0) by (rewrite Hxe, HN0; ring).
+      unfold rnd64. rewrite H. rewrite round_0 by typeclasses eauto. lra.
+    - assert (HN1 : 1 <= N).
+      { unfold N in *. apply (IZR_le 1 n). assert (n <> 0)%Z by (intros ->; apply HN0; reflexivity). lia. }
+      pose proof small_bpow as Hsm.
+      destruct (rnd64_rel x) as [e [He Hr]].
+      { rewrite Rabs_pos_eq; rewrite Hxe; nra. }
+      apply Rabs_le_inv in He. unfold u64 in He.
+      rewrite Hr. apply Rmult_lt_reg_r with (2 * C); [lra|].
+      replace (x * (1 + e) * (2 * C)) with (x * (2 * C) * (1 + e)) by ring.
+      rewrite Hx2C. apply Rlt_le_trans with (N + 1); [nra|exact HMN2]. }
+  destruct (fdiv_correct a (of_Z nc)) as [B1 B2].
+  { rewrite HcR. fold C. lra. }
+  { rewrite A1, HcR. fold C. fold x.
+    apply Rle_lt_trans with (bpow radix2 60); [|apply bpow_lt; reflexivity].
+    change (bpow radix2 60) with 1152921504606846976. rewrite Rabs_pos_eq; lra. }
+  rewrite A1, HcR in B1. fold C in B1. fold x in B1. rewrite A2 in B2.
+  unfold py_int. rewrite B2. f_equal. apply eq_IZR.
+  rewrite (Btrunc_correct prec emax Hemax). rewrite round_FIX_IZR. rewrite B1.
+  rewrite Ztrunc_floor by lra. f_equal. apply Zfloor_imp. rewrite plus_IZR. fold M. lra.
+Qed.
+
+Local Open Scope Z_scope.
+
+Lemma ns_meta_round_trip k fs : 0 <= k <= 2 ^ 50 -> fs_ok fs ->
+  ns_meta (Some (fdiv (of_Z k) fs)) fs = NsOk k.
+Proof.
+  intros Hk Hfs. unfold ns_meta.
+  destruct (round_trip k fs Hk Hfs) as [_ [_ H]]. now rewrite H.
+Qed.
+
+(* Reader (offline, meta with fileTimeSecs): the open succeeds and exposes exactly the complete frames *)
+Lemma open_offline_floor wok nbytes nc t fs ns0 :
+  1 <= nc -> 1 <= nbytes -> nbytes / (2 * nc) <= 2 ^ 50 -> fs_ok fs ->
+  ns_meta (Some t) fs = NsOk ns0 ->
+  wok = true ->
+  let k := nbytes / (2 * nc) in
+  let rw := negb (nc * ns0 * 2 =? nbytes) in
+  open_bin false wok nbytes nc (Some t) fs =
+    Opened k nc (if rw then Some (rl k fs) else Some t) rw.
+Proof.
+  intros Hnc Hnb Hk Hfs Hns0 -> k rw.
+  destruct (floor_frames nbytes nc Hnc ltac:(lia)) as [[Hlo Hhi] Hk0]. fold k in Hlo, Hhi, Hk0.
+  unfold open_bin, reader_ns. rewrite Hns0. fold rw. rewrite andb_false_r.
+  destruct rw eqn:Erw.
+  - unfold rl. fold k. rewrite (ns_meta_round_trip k fs ltac:(lia) Hfs).
+    replace (memmap_ok nbytes k nc) with true; [reflexivity|].
+    symmetry. apply memmap_ok_spec. nia.
+  - rewrite Hns0. subst rw. apply negb_false_iff, Z.eqb_eq in Erw.
+    rewrite (exact_frames nbytes nc ns0 Hnc Erw). fold k.
+    replace (memmap_ok nbytes k nc) with true; [reflexivity|].
+    symmetry. apply memmap_ok_spec. nia.
+Qed.
+
+(* OnlineReader: same, whatever fileTimeSecs the meta file has (or has not) *)
+Lemma open_online_floor wok nbytes nc fts fs :
+  1 <= nc < 2 ^ 53 -> 1 <= nbytes < 2 ^ 53 ->
+  wok = true ->
+  let k := nbytes / (2 * nc) in
+  let rw := negb (nc * k * 2 =? nbytes) in
+  open_bin true wok nbytes nc fts fs =
+    Opened k nc (if rw then Some (rl k fs) else fts) rw.
+Proof.
+  intros Hnc Hnb -> k rw.
+  destruct (floor_frames nbytes nc ltac:(lia) ltac:(lia)) as [[Hlo Hhi] Hk0]. fold k in Hlo, Hhi, Hk0.
+  unfold open_bin, reader_ns. rewrite (ns_online_floor nbytes nc ltac:(lia) Hnc). fold k. fold rw.
+  rewrite andb_false_r.
+  replace (memmap_ok nbytes k nc) with true; [|symmetry; apply memmap_ok_spec; nia].
+  destruct rw; reflexivity.
+Qed.
+
+(* the defect: meta of a recording in progress + partial trailing frame + warnings on *)
+Lemma open_online_keyerror nbytes nc fts fs :
+  1 <= nc < 2 ^ 53 -> 1 <= nbytes < 2 ^ 53 -> nbytes mod (2 * nc) <> 0 ->
+  open_bin true false nbytes nc fts fs = KeyErr.
+Proof.
+  intros Hnc Hnb Hmod. unfold open_bin, reader_ns.
+  rewrite (ns_online_floor nbytes nc ltac:(lia) Hnc).
+  replace (nc * (nbytes / (2 * nc)) * 2 =? nbytes) with false; [reflexivity|].
+  symmetry. apply Z.eqb_neq. intros E. apply Hmod.
+  pose proof (Z.div_mod nbytes (2 * nc) ltac:(lia)). lia.
+Qed.
+
+(* compressed stream: the .ch announces chns frames *)
+Lemma open_cbin_exposes chns nc t fs ns0 :
+  0 <= chns <= 2 ^ 50 -> fs_ok fs ->
+  ns_meta (Some t) fs = NsOk ns0 ->
+  let rw := negb ((chns =? ns0) && (nc =? nc)) in
+  open_cbin chns nc nc (Some t) fs = Opened chns nc (if rw then Some (rl chns fs) else Some t) rw.
+Proof.
+  intros Hk Hfs Hns0 rw. unfold open_cbin. rewrite Hns0. fold rw.
+  destruct rw eqn:Erw.
+  - unfold rl. now rewrite (ns_meta_round_trip chns fs Hk Hfs).
+  - rewrite Hns0. subst rw. apply negb_false_iff, andb_true_iff in Erw.
+    destruct Erw as [E _]. apply Z.eqb_eq in E. now subst.
+Qed.
+
+(* duration: rl is the correctly rounded quotient ns / fs, and it reads back as ns samples *)
+Lemma rl_correct ns fs : 0 <= ns <= 2 ^ 50 -> fs_ok fs ->
+  is_finite (rl ns fs) = true /\
+  B2R (rl ns fs) = rnd64 (IZR ns / B2R fs) /\
+  ns_meta (Some (rl ns fs)) fs = NsOk ns.
+Proof.
+  intros Hk Hfs. unfold rl. destruct (round_trip ns fs Hk Hfs) as [H1 [H2 _]].
+  split; [exact H1|]. split; [exact H2|]. apply ns_meta_round_trip; assumption.
+Qed.
+
+(* floats handed over as m * 2^e are exact (how concrete sampling rates enter the examples) *)
+Lemma of_me_correct m e : Z.abs m < 2 ^ 53 -> -1074 <= e <= 0 ->
+  B2R (of_me m e) = (IZR m * bpow radix2 e)%R /\ is_finite (of_me m e) = true.
+Proof.
+  intros H He. unfold of_me.
+  pose proof (binary_normalize_correct prec emax Hprec Hemax mode_NE m e false) as C.
+  cbv zeta in C.
+  replace (F2R {| Fnum := m; Fexp := e |}) with (IZR m * bpow radix2 e)%R in C by reflexivity.
+  rewrite fexp_eq in C. change (round_mode mode_NE) with ZnearestE in C.
+  assert (G : generic_format radix2 fexp64 (IZR m * bpow radix2 e)).
+  { apply generic_format_FLT. apply FLT_spec with (Float radix2 m e); [reflexivity|exact H|exact (proj1 He)]. }
+  rewrite (round_generic radix2 fexp64 ZnearestE _ G) in C.
+  rewrite Rlt_bool_true in C.
+  - destruct C as [C1 [C2 _]]. split; assumption.
+  - rewrite Rabs_mult. rewrite (Rabs_pos_eq (bpow radix2 e)) by apply bpow_ge_0.
+    apply Rle_lt_trans with (Rabs (IZR m) * 1)%R.
+    + apply Rmult_le_compat_l; [apply Rabs_pos|].
+      change 1%R with (bpow radix2 0). apply bpow_le. lia.
+    + rewrite Rmult_1_r. apply bpow_emax_big. lia.
+Qed.
+
+Lemma prefix_cells ns nc c : 1 <= nc -> 0 <= c < ns * nc ->
+  byte_offset nc (c / nc) (c mod nc) = 2 * c /\ 0 <= c / nc < ns /\ 0 <= c mod nc < nc.
+Proof.
+  intros Hnc Hc. destruct (byte_offset_surj nc c Hnc (proj1 Hc)) as [H1 H2].
+  split; [exact H1|]. split; [|exact H2]. split.
+  - apply Z.div_pos; lia.
+  - apply Z.div_lt_upper_bound; lia.
+Qed.
